@@ -8,7 +8,7 @@ from hypothesis import strategies as st
 from reactivex import operators as ops
 
 from vlib.core import FAIL, OK, SKIP, Check, HarnessError
-from vlib.difftools import coldify, dispose_tree, first_diff, norm_tree, runtime_multiset, sort_intervals, src_key, tree_has_next
+from vlib.difftools import coldify, dispose_tree, guard_spin, first_diff, norm_tree, runtime_multiset, sort_intervals, src_key, tree_has_next
 from vlib.lab import Lab
 from vlib.pipes import OPS, Builder, s_count, s_dur1, s_inners, s_src, s_val
 from vlib.values import val
@@ -91,6 +91,7 @@ def _prefix(lab, i, inp, pre):
 def _world(case, one, make_ops, inp="any"):
     """make_ops(lab) -> operator function (one factory call). Returns dict with lab, probes, source groups."""
     lab = Lab()
+    guard_spin(lab)
     n = len(case["srcs"])
     prim = [lab.source(s) for s in case["srcs"]]
     mark = len(lab.sources)
@@ -233,7 +234,8 @@ def _run_ops(case):
     return _judge(case, make, name, cls, o.inp)
 
 
-_prim = s_src(("cold", "cold", "sync", "hot"), max_len=5)
+# primaries are mostly non-empty and completing so that aggregates (emit at completion) also yield elements
+_prim = s_src(("cold", "cold", "sync", "hot"), max_len=5, min_len=1, terminal=("C", "C", "C", "E", None))
 
 
 def _plan(n, connects):
@@ -336,6 +338,6 @@ def _conn_cases(draw):
 def checks(tier):
     # one check per operator form so that every form gets the same budget (a single sampled_from over the
     # table was measured to give some forms 2 cases and others 130)
-    out = [Check("op." + name, _run_ops, strategy=_ops_cases(name), examples={"quick": 32, "thorough": 1600}, shards={"quick": 8, "thorough": 16}) for name in sorted(OPS)]
+    out = [Check("op." + name, _run_ops, strategy=_ops_cases(name), examples={"quick": 48, "thorough": 1600}, shards={"quick": 8, "thorough": 16}) for name in sorted(OPS)]
     out.append(Check("connectable", _run_conn, strategy=_conn_cases(), examples={"quick": 1600, "thorough": 16 * 6000}, shards={"quick": 8, "thorough": 16}))
     return out
